@@ -3,7 +3,7 @@
 From Util Require Import Common.Base Common.ListLemmas RefCount.Model RefCount.Spec RefCount.Proofs RefCount.ProofsC08 RefCount.ProofsC08b
   RefCount.ProofsC09 RefCount.ProofsC10 RefCount.ProofsC10a RefCount.ProofsC10b RefCount.ProofsCodec RefCount.ProofsMon RefCount.ProofsMon2 RefCount.ProofsMon3
   RefCount.ProofsMon4 RefCount.ProofsMon5 RefCount.ProofsMon6 RefCount.ProofsMon7 RefCount.ProofsMonG RefCount.ProofsMon8 RefCount.ProofsMon9 RefCount.ProofsMon10
-  RefCount.ProofsMon11 RefCount.ProofsMon12 RefCount.ProofsMon13 RefCount.ProofsMon14 RefCount.ProofsMon15 RefCount.ProofsMon16 RefCount.ProofsMon17
+  RefCount.ProofsMon11 RefCount.ProofsMon12 RefCount.ProofsMon13 RefCount.ProofsMon14 RefCount.ProofsMon15 RefCount.ProofsMon16 RefCount.ProofsMon17 RefCount.ProofsMonE
   RefCount.ProofsMon18 RefCount.ProofsMon19 RefCount.ProofsMon20 RefCount.ProofsMon21 RefCount.ProofsMon22.
 Open Scope nat_scope.
 
@@ -19,6 +19,7 @@ Section Rows2.
   Hypothesis HP : Rproj m h.
   Hypothesis Hd : dec h e e0 rets.
   Hypothesis Hcur : m_cur m = cur_of (hs h).
+  Hypothesis Hem : Rempty m (hs h).
   Hypothesis HA : Racc2 m (hs h).
   Local Notation s := (hs h).
   Local Notation s' := (settle (step repaired (hs h) e0)).
@@ -39,8 +40,8 @@ Section Rows2.
   Proof.
     intros Hi. unfold row_of, verdict. destruct (ccode6 (getc s' i)) as [[[[[code v] e1] hh] f1] f2] eqn:Ec. rewrite judge_full.
     destruct (ck (getc s' i)) eqn:Hk; cbn [ckcode N.eqb Pos.eqb negb]; try reflexivity.
-    destruct (acc_row_c m h e e0 rets HRh HCh HP Hd Hcur HA i Hi Hk code v e1 hh f1 f2 Ec) as [A1 [A2 [A3 [A4 _]]]].
-    destruct (dec_row m h e e0 rets HRh HCh HP Hd Hcur HA i Hi Hk code v e1 hh f1 f2 Ec) as [_ B2].
+    destruct (acc_row_c m h e e0 rets HRh HCh HP Hd Hcur Hem HA i Hi Hk code v e1 hh f1 f2 Ec) as [A1 [A2 [A3 [A4 _]]]].
+    destruct (dec_row m h e e0 rets HRh HCh HP Hd Hcur Hem HA i Hi Hk code v e1 hh f1 f2 Ec) as [_ B2].
     rewrite A3, A4, B2, A1. cbn [app]. destruct (is_cb (cpcv (getc s' i))) eqn:Ecb; [rewrite (A2 eq_refl)|]; reflexivity.
   Qed.
 
@@ -70,11 +71,11 @@ Section Rows2.
     - intros i Hk Hp. pose proof (InR i Hk) as Hi.
       rewrite (nth_error_nth_d _ _ false _ (nth_error_map_some _ _ _ _ (judged_nth2 i Hi))). unfold verdict. rewrite Hk.
       destruct (ccode6 (getc s' i)) as [[[[[code v] e1] hh] f1] f2] eqn:Ec.
-      destruct (acc_row_c m h e e0 rets HRh HCh HP Hd Hcur HA i Hi Hk code v e1 hh f1 f2 Ec) as [_ [_ [_ [_ A5]]]]. exact (A5 Hp).
+      destruct (acc_row_c m h e e0 rets HRh HCh HP Hd Hcur Hem HA i Hi Hk code v e1 hh f1 f2 Ec) as [_ [_ [_ [_ A5]]]]. exact (A5 Hp).
     - intros i Hi Hk.
       rewrite (nth_error_nth_d _ _ None _ (nth_error_map_some _ _ _ _ (judged_nth2 i Hi))). unfold verdict. rewrite Hk.
       destruct (ccode6 (getc s' i)) as [[[[[code v] e1] hh] f1] f2] eqn:Ec.
-      destruct (dec_row m h e e0 rets HRh HCh HP Hd Hcur HA i Hi Hk code v e1 hh f1 f2 Ec) as [B1 _]. exact B1.
+      destruct (dec_row m h e e0 rets HRh HCh HP Hd Hcur Hem HA i Hi Hk code v e1 hh f1 f2 Ec) as [B1 _]. exact B1.
     - intros i Hi. apply nth_overflow. rewrite map_length, (judged_len m h e e0 rets HP Hd). exact Hi.
     - intros i Hi Hk. exact (settled_after h e0 i Hi Hk).
   Qed.
